@@ -9,7 +9,7 @@ def h(b):
 
 LITS = ["a", "ab ", "x=", " ", ",", "[]", "end", "\t|"]
 STRS = [b"", b"hey", b"a b", b"\x80\xff", b"quo\"te", b"back\\slash", b"tab\there",
-        b"50%% off", b"100%", b"%d", b"%s%n", b"%", b"%5.2f%%", b"{}", b"$"]          # argument text is data: '%' in it means nothing
+        b"\a\b\f\n\r\t\v\\'\"?", b"v\vt", b"\x01\x1f\x7f", b"50%% off", b"100%", b"%d", b"%s%n", b"%", b"%5.2f%%", b"{}", b"$"]          # argument text is data: '%' in it means nothing
 
 def int_spec(rng):
     c = rng.choice("diuoxXc")
@@ -20,7 +20,7 @@ def int_spec(rng):
     w = rng.choice(["", "", "1", "5", "12"])
     p = "" if c == "c" else rng.choice(["", "", ".0", ".3", ".8"])
     if p and "0" in fl: fl = fl.replace("0", "")
-    lm = "" if c == "c" else rng.choice(["", "", "l", "ll", "h", "hh"])
+    lm = "" if c == "c" else rng.choice(["", "", "l", "ll", "h", "hh", "j", "z", "t"])
     return "%" + fl + w + p + lm + c, c
 
 def float_spec(rng):
@@ -88,7 +88,7 @@ def matrix_execs(rng, quick):
             for w in ("", "1", "7"):
                 for p in ("", ".0", ".4"):
                     if p and "0" in fl: continue                      # the 0 flag is ignored with a precision: same output as without
-                    for lm in ("", "l", "ll", "h", "hh"):
+                    for lm in ("", "l", "ll", "h", "hh", "j", "z", "t"):
                         vs = ivals if not quick else [0, rng.choice(ivals[1:])]
                         for v in vs:
                             lines.append("print %s %d C%s,I,%d" % (rng.choice("SF"), rng.choice([0, 4]), h("%" + fl + w + p + lm + c), v))
@@ -150,7 +150,8 @@ def round_execs(rng, quick):
     def rng_in(lo, hi, n): return [rng.choice([lo, hi, 0, -1 if lo < 0 else 1, rng.randint(lo, hi)]) for _ in range(n)]
     for _ in range(120 if quick else 1500):
         spec, lo, hi = rng.choice([("li", -2**63, 2**63 - 1), ("lld", -2**63, 2**63 - 1), ("d", -2**31, 2**31 - 1), ("i", -2**31, 2**31 - 1),
-                                   ("hd", -2**15, 2**15 - 1), ("hhd", -128, 127), ("u", 0, 2**32 - 1), ("lu", 0, 2**63 - 1), ("$", -2**63, 2**63 - 1)])
+                                   ("hd", -2**15, 2**15 - 1), ("hhd", -128, 127), ("u", 0, 2**32 - 1), ("lu", 0, 2**63 - 1), ("$", -2**63, 2**63 - 1),
+                                   ("jd", -2**63, 2**63 - 1), ("zd", -2**63, 2**63 - 1), ("td", -2**63, 2**63 - 1), ("zu", 0, 2**63 - 1), ("ji", -2**63, 2**63 - 1)])
         n = rng.randint(1, 6)
         lines.append("ps %s %d %s I %d %s" % (rng.choice("SF"), rng.choice([0, 2]), spec, n, " ".join(str(v) for v in rng_in(lo, hi, n))))
     for _ in range(60 if quick else 600):
